@@ -104,6 +104,24 @@ pub fn annexb(units: &[Vec<u8>], three_byte: bool) -> Vec<u8> {
     o
 }
 
+/// Start-code pattern by `mode % 4`: 0 = every unit behind 00 00 00 01; 1 = odd units behind
+/// 00 00 01; 2 = the first unit behind the long form and every later one behind the short form
+/// (x264's habit); 3 = every unit behind the short form.
+pub fn annexb_mode(units: &[Vec<u8>], mode: u32) -> Vec<u8> {
+    let mut o = vec![];
+    for (i, u) in units.iter().enumerate() {
+        let short = match mode % 4 {
+            0 => false,
+            1 => i % 2 == 1,
+            2 => i > 0,
+            _ => true,
+        };
+        o.extend_from_slice(if short { &SC3[..] } else { &SC4[..] });
+        o.extend_from_slice(u);
+    }
+    o
+}
+
 pub fn length_prefixed(units: &[Vec<u8>]) -> Vec<u8> {
     let mut o = vec![];
     for u in units {
@@ -614,7 +632,7 @@ pub fn video_frame_variant(codec: VCodec, key: bool, with_cfg: bool, tag: u32, l
             s.extend(body(tag, len.max(1)));
             // the order of the parameter sets varies too (any order before the slice is legal)
             let u = if variant % 2 == 0 { vec![h264_pps(variant), h264_sps(variant), s] } else { vec![h264_sps(variant), h264_pps(variant), s] };
-            (annexb(&u, tag % 2 == 1), length_prefixed(&u))
+            (annexb_mode(&u, tag), length_prefixed(&u))
         }
         VCodec::H265 => {
             let mut s = vec![if key { 0x26 } else { 0x02 }, 0x01];
@@ -625,7 +643,7 @@ pub fn video_frame_variant(codec: VCodec, key: bool, with_cfg: bool, tag: u32, l
                 1 => vec![sp, pp, v, s],
                 _ => vec![v, pp, sp, s],
             };
-            (annexb(&u, tag % 2 == 1), length_prefixed(&u))
+            (annexb_mode(&u, tag), length_prefixed(&u))
         }
         VCodec::Av1 => {
             let mut o = obu(2, false, true, &[]);
@@ -648,7 +666,7 @@ pub fn video_frame(codec: VCodec, key: bool, with_cfg: bool, tag: u32, len: usiz
     match codec {
         VCodec::H264 | VCodec::H265 => {
             let u = nal_units(codec, key, with_cfg, tag, len);
-            (annexb(&u, tag % 2 == 1), length_prefixed(&u))
+            (annexb_mode(&u, tag), length_prefixed(&u))
         }
         VCodec::Av1 => {
             let f = av1_frame(key, with_cfg, tag, len);
